@@ -544,7 +544,8 @@ func normCond(c ssa.Value, pol bool) []string {
 // predicate returns true / false.
 type predSummary struct {
 	ok           bool
-	whenT, whenF []string
+	whenT, whenF []string   // forms common to every path producing that result
+	altT, altF   [][]string // per producing path: its forms (disjunction of conjunctions)
 }
 
 var predCache = map[*ssa.Function]*predSummary{}
@@ -584,6 +585,58 @@ func impliedByPredicate(call *ssa.Call, pol bool, depth int) []string {
 	return out
 }
 
+// predicateAlternatives: for a guard whose condition is a call to a summarised predicate helper, the
+// alternative sets of forms (one per path through the helper that yields the guard's polarity), with the
+// helper's parameters replaced by the call's arguments. nil when the guard is not such a call.
+func predicateAlternatives(g Guard) [][]string {
+	c, pol := g.Cond, g.Pol
+	for {
+		if u, ok := c.(*ssa.UnOp); ok && u.Op == token.NOT {
+			c, pol = u.X, !pol
+			continue
+		}
+		break
+	}
+	call, ok := c.(*ssa.Call)
+	if !ok || call.Call.IsInvoke() {
+		return nil
+	}
+	callee := call.Call.StaticCallee()
+	if callee == nil || callee.Blocks == nil {
+		return nil
+	}
+	ps := summarisePredicate(callee, 0)
+	if ps == nil || !ps.ok {
+		return nil
+	}
+	alts := ps.altF
+	if pol {
+		alts = ps.altT
+	}
+	if len(alts) < 2 {
+		return nil // a single alternative is already covered by the implied guards
+	}
+	args := make([]string, len(call.Call.Args))
+	for i, a := range call.Call.Args {
+		args[i] = Expr(a)
+	}
+	var out [][]string
+	for _, alt := range alts {
+		var l []string
+		for _, f := range alt {
+			l = append(l, reParamTok.ReplaceAllStringFunc(f, func(m string) string {
+				i, _ := strconv.Atoi(m[1:])
+				if i < len(args) {
+					return args[i]
+				}
+				return m
+			}))
+		}
+		out = append(out, l)
+	}
+	return out
+}
+
 func summarisePredicate(fn *ssa.Function, depth int) *predSummary {
 	if ps, ok := predCache[fn]; ok {
 		return ps
@@ -600,8 +653,13 @@ func summarisePredicate(fn *ssa.Function, depth int) *predSummary {
 	// side-effect free in the sense that matters: it stores nothing and starts nothing
 	for _, b := range fn.Blocks {
 		for _, ins := range b.Instrs {
-			switch ins.(type) {
-			case *ssa.Store, *ssa.MapUpdate, *ssa.Send, *ssa.Go, *ssa.Defer, *ssa.Panic, *ssa.Select:
+			switch x := ins.(type) {
+			case *ssa.Store:
+				// spilling a by-value parameter into its own local is not an effect
+				if _, isAlloc := x.Addr.(*ssa.Alloc); !isAlloc {
+					return ps
+				}
+			case *ssa.MapUpdate, *ssa.Send, *ssa.Go, *ssa.Defer, *ssa.Panic, *ssa.Select:
 				return ps
 			}
 		}
@@ -692,6 +750,19 @@ func summarisePredicate(fn *ssa.Function, depth int) *predSummary {
 		return out
 	}
 	ps.whenT, ps.whenF = inter(tsets), inter(fsets)
+	flat := func(sets []map[string]bool) [][]string {
+		var out [][]string
+		for _, m := range sets {
+			var l []string
+			for k := range m {
+				l = append(l, k)
+			}
+			sort.Strings(l)
+			out = append(out, l)
+		}
+		return out
+	}
+	ps.altT, ps.altF = flat(tsets), flat(fsets)
 	ps.ok = true
 	return ps
 }
@@ -1209,6 +1280,7 @@ func (f *Fn) PathGuards(target ssa.Instruction, max int) (paths []map[string]boo
 	ok = true
 	visited := make([]bool, len(f.succ))
 	var cur []Guard
+	var extra []string // forms contributed by the chosen alternative of predicate-helper guards
 	var walk func(b int)
 	walk = func(b int) {
 		if !ok {
@@ -1220,6 +1292,9 @@ func (f *Fn) PathGuards(target ssa.Instruction, max int) (paths []map[string]boo
 				for _, s := range NormGuard(g) {
 					m[s] = true
 				}
+			}
+			for _, s := range extra {
+				m[s] = true
 			}
 			paths = append(paths, m)
 			if len(paths) > max {
@@ -1235,8 +1310,18 @@ func (f *Fn) PathGuards(target ssa.Instruction, max int) (paths []map[string]boo
 				continue
 			}
 			if isIf && len(f.succ[b]) == 2 {
-				cur = append(cur, Guard{If: iff, Cond: iff.Cond, Pol: k == 0})
-				walk(s)
+				g := Guard{If: iff, Cond: iff.Cond, Pol: k == 0}
+				cur = append(cur, g)
+				if alts := predicateAlternatives(g); alts != nil {
+					for _, alt := range alts {
+						n0 := len(extra)
+						extra = append(extra, alt...)
+						walk(s)
+						extra = extra[:n0]
+					}
+				} else {
+					walk(s)
+				}
 				cur = cur[:len(cur)-1]
 			} else {
 				walk(s)
